@@ -25,6 +25,7 @@ type c15Case struct {
 	HB      int      `json:"hb"`
 	DelayMs int      `json:"answer_delay_ms,omitempty"`  // local-logout: delay before the peer's answer
 	Buf     int      `json:"buf,omitempty"`              // outgoing queue size (default 10)
+	Relogon bool     `json:"relogon,omitempty"`          // initiator: after the logout exchange the application calls LogonRequest again
 	Veto    bool     `json:"veto,omitempty"`             // the application has a logout callback that returns false (it ends the chain of callbacks after it): Stop ends on the answer all the same
 	LogonMs int      `json:"logon_timeout_ms,omitempty"` // acceptor's LogonTimeout (default 30 s): a time-out for a logon that never comes must not touch a session that did log on
 }
@@ -210,6 +211,20 @@ func c15Run(c c15Case) (string, string) {
 			return "stop:second-logout", fmt.Sprintf("outs=[%s]", outsStr(later))
 		}
 	}
+	if c.Relogon && c.Role == "ini" && (c.Ending == "peer-logout" || c.Ending == "local-logout") && !w.ctxDone && !w.runDone {
+		// the second use of an initiating session: after the logout exchange the application asks for a logon again
+		w.take()
+		_ = w.s.LogonRequest()
+		vsched.Settle()
+		outs := w.take()
+		if countType(outs, "A") != 1 {
+			return "relogon:logon-request-not-sent", fmt.Sprintf("LogonRequest after a completed logout: outs=[%s]", outsStr(outs))
+		}
+		w.in(w.msg("A", "98=0", "108="+fmt.Sprint(c.HB)))
+		if !w.s.IsLogged() {
+			return "relogon:not-logged-on", ""
+		}
+	}
 	return "", ""
 }
 
@@ -284,6 +299,12 @@ func runC15(R *vlib.Out) {
 						if !try(c15Case{Role: role, CloseMs: ct, Ending: "stop", Answer: a, HB: 30, Veto: true}) {
 							return
 						}
+					}
+				}
+				if role == "ini" && len(p) <= 1 {
+					if !try(c15Case{Role: role, CloseMs: ct, Prefix: p, Ending: "peer-logout", HB: 30, Relogon: true}) ||
+						!try(c15Case{Role: role, CloseMs: ct, Prefix: p, Ending: "local-logout", Answer: "answer", HB: 30, Relogon: true}) {
+						return
 					}
 				}
 				if !try(c15Case{Role: role, CloseMs: ct, Prefix: p, Ending: "peer-logout", HB: 30}) {
